@@ -10,11 +10,16 @@ func init() {
 	register(&Prop{
 		ID:        "C40",
 		Level:     "other",
-		Technique: "arm table of the start-offset resolution (normalised statements per Offset kind, each relative shift followed by its clamp), dominance rule for folding Relative into exact offsets before they are used or validated, request-construction rules for the bounding (end) ListOffsets request",
+		Technique: "arm table of the start-offset resolution (normalised statements per Offset kind, each relative shift followed by its clamp), dominance rule for folding Relative into exact offsets before they are used or validated, request-construction rules for the bounding (end) ListOffsets request, who-may-read / who-may-write tables for cfg.startOffset and cfg.resetOffset, field-coverage rule for Offset values built from another Offset, whole-value rule for retried loads",
 		Explanation: "(1) in listOffsetsForBrokerLoad each Offset kind has its arm: AfterMilli falls back to the end listing on -1; At(x) takes want = at+relative, raised to the listed start and capped at the listed end; AtStart().Relative(n>0) adds n and caps at the end; AtEnd().Relative(-n) starts from the end, adds the negative shift and floors at the start; a negative result is reported as an error and never clamped to 0; the end is read from the second response at the same topic/partition index; " +
 			"(2) buildListReq issues the second (end) request exactly for the kinds that need a bound (afterMilli, exact, start+relative, end-relative), as a full copy of the first request (so it carries IsolationLevel: under read_committed the end is the last stable offset) with every partition's timestamp set to -1; " +
-			"(3) in assignPartitions the Relative part of an exact offset is folded in (at += relative, floored at 0, relative = 0) before the offset is sent to epoch validation, set on the cursor, or listed.",
-		NotDecided: "the out-of-range reset path, committed-offset resolution (AtCommitted) and the direct cursor-set path's interaction with the last stable offset.",
+			"(3) in assignPartitions the Relative part of an exact offset is folded in (at += relative, floored at 0, relative = 0) before the offset is sent to epoch validation, set on the cursor, or listed; " +
+			"(4) a group member starts from the fetched committed offset whenever it is non-negative (also 0) and falls back to cfg.startOffset only for a negative one; " +
+			"(5) cfg.startOffset is read only by findNewAssignments, groupConsumer.fetchOffsets (both required), OptValues and NewClient, cfg.resetOffset only by source.handleReqResp (the OffsetOutOfRange path, required), OptValues and NewClient; both are written only by their option, defaultCfg and NewClient; each option stores its argument into its own field and sets its own flag; NewClient copies one into the other only under `other set && this not set`; " +
+			"(6) every offset findNewAssignments hands out is cfg.startOffset or the unmodified offset pinned for that partition in directConsumer.ps; " +
+			"(7) the retry arm of handleListOrEpochResults re-queues the failed load's request as a whole (or a literal that copies every user-visible field from it), for the failed load's topic / partition and with the failed request's load type; every loadedOffset result carries as request the unmodified offsetLoad variable taken from the load map; " +
+			"(8) an Offset literal or field-by-field rebuild that copies any field from another Offset value copies all user-visible fields (at, relative, epoch, noReset, afterMilli = the fields the exported builders set); every offsetLoad literal carries an Offset; every Offset builder method modifies and returns its receiver copy and sets afterMilli unconditionally (true only in AfterMilli).",
+		NotDecided: "the position arithmetic of the out-of-range reset path (only who may read cfg.resetOffset / cfg.startOffset is decided), AtCommitted without a commit beyond the error injection, the direct cursor-set path's interaction with the last stable offset, and Offset values that travel through maps, channels or function results (treated as whole copies; only literals and field-by-field assignments are checked for coverage).",
 		Run:        runC40,
 	})
 }
@@ -25,6 +30,7 @@ func runC40(c *Ctx) {
 		return
 	}
 	c40committed(c, m)
+	c40round3(c, m)
 	if f := c.NeedFunc(m, "kgo.Client.listOffsetsForBrokerLoad"); f != nil {
 		rule := "start-offset-arms"
 		// find the if/else-if chain whose first condition is loadPart.afterMilli
